@@ -19,7 +19,7 @@ ASSUMPTIONS = ["comparison bounded to words of length <= %d" % N,
                "PDAs have a start state and a start stack symbol"]
 TIERS = {
     "quick": {"workers": 4, "random": 450},
-    "thorough": {"workers": 16, "random": 5000, "pytest": True, "hard_timeout": 3300},
+    "thorough": {"workers": 16, "random": 8000, "pytest": True, "hard_timeout": 3300},
 }
 MIN = {"quick": {"C13.CFG.to_pda": 500, "C13.PDA.to_cfg": 500, "C13.PDA.to_final_state": 500,
                  "C13.PDA.to_empty_stack": 500},
